@@ -360,3 +360,9 @@ Definition reader_run (chunks : list bytes) : list rmsg * bool :=
 
 Definition reader_out_eqb (a b : list rmsg * bool) : bool :=
   list_eqb rmsg_eqb (fst a) (fst b) && Bool.eqb (snd a) (snd b).
+
+(* ---- BcpTransportManager._receive_loop: each command's handler is awaited before the next read ---- *)
+(* input: per message (is a registered command?, id); observation: (true,id) = handler started,
+   (false,id) = handler finished.  A handler may suspend for any time between the two. *)
+Definition dispatch_run (ms : list (bool * Z)) : list (bool * Z) :=
+  flat_map (fun m : bool * Z => if fst m then [(true, snd m); (false, snd m)] else []) ms.
